@@ -192,4 +192,10 @@ operation (`x += …`, `x[...] = …` on an argument, `x.op_()`, `out=`): the pl
 is modified -/
 theorem dc_block_shape_ok : blockShapeOk dc_block_exits dc_block_inplace = true := by decide
 
+/-- the control flow of the blocks is the modelled one: straight-line plans plus the one loop of `cg`; no branch on the
+mode (`self.training`, grad mode), on a shape, a coil count, a dtype or a device, and no loop over coils or chunks in the two
+anchored blocks; the loops and mode- / shape-dependent branches of the other data-consistency classes are the recorded ones
+(seeded regression C18-6: coils accumulated in chunks of 8 in eval mode, remainder dropped) -/
+theorem dc_control_ok : controlOk dc_block_control dc_site_control = true := by decide
+
 end DirectVerif.Bridge.C19
